@@ -170,6 +170,15 @@ T_Parse == /\ Ev.ev = "Parse" /\ tph = "parse" /\ Ev.round = tround
                    /\ tfirst' = IF tround = 0 THEN [sec |-> Ev.sec, nmcnk |-> Ev.nmcnk] ELSE tfirst
                    /\ tph' = IF tround < 4 THEN "rebuild" ELSE "end"
            /\ UNCHANGED <<tshape, tinp, tround, twver, tplen, tftok>>
+\* round 5: load - edit - save - load. A parsed tile with one kind of optional MCNK sub-chunk removed from every chunk is rebuilt
+\* and parsed again: the content is the edited content, section by section (P: "serialising a parsed tile and parsing it again
+\* yields the same content" for a tile whose in-memory headers still describe the file it was parsed from)
+\* (the MCNK header projection "khdr" carries the presence flags, which the serialiser recomputes: not compared)
+EditDiff(e) == {sec \in DOMAIN e.pre \ {"khdr"} : sec \notin DOMAIN e.post \/ e.post[sec] # e.pre[sec]}
+T_Edit == /\ Ev.ev = "Edit" /\ tph = "rebuild" /\ Ev.round = tround
+          /\ Report(IF Ev.res # "ok" THEN <<"edit-" \o Ev.drop \o ":" \o Ev.res>>
+                    ELSE Chk(EditDiff(Ev) = {}, "edit-" \o Ev.drop \o ":content-differs-after-rebuild"), << >>)
+          /\ UNCHANGED <<tph, tshape, tinp, tfirst, tround, twver, tplen, tftok>>
 T_Rebuild == /\ Ev.ev = "Rebuild" /\ tph = "rebuild" /\ Ev.round = tround + 1
              /\ IF Ev.res # "ok"
                 THEN Report(<<"rebuild:" \o Ev.res>>, << >>) /\ tph' = "end" /\ twver' = twver
@@ -182,7 +191,7 @@ TInit == /\ tl = 1 /\ tph = "reset" /\ tshape = NoRec /\ tinp = NoRec /\ tfirst 
          /\ Init /\ aver = 0 /\ aopts = {} /\ ank = 0 /\ asubs = {}
 TNext == /\ tl <= Len(Rec)
          /\ tl' = tl + 1
-         /\ (T_Reset \/ T_Build \/ T_File \/ T_Write \/ T_Parse \/ T_Rebuild)
+         /\ (T_Reset \/ T_Build \/ T_File \/ T_Write \/ T_Parse \/ T_Edit \/ T_Rebuild)
          /\ UNCHANGED avars
 
 Accepted == LET d == TLCGet("stats").diameter IN
